@@ -143,7 +143,8 @@ class WorldFromFileTransformer:
 
     def __call__(self, world_handle: 'WorldFromFileHandle', world: World):
         """Apply processor and component transformers."""
-        with open(world_handle.filename) as fin:
+        # JSON text is UTF-8, whatever the locale says
+        with open(world_handle.filename, encoding='utf-8') as fin:
             world_dict = json.load(fin)
 
         # Apply transformers on processor dictionaries
